@@ -193,6 +193,36 @@ where
     }
 }
 
+/// args: bpp alt w h len seed.  `new_const` panics on a wrong length; the panic is caught here and printed as `panic`.
+fn img_new_const<C, O>(a: &[&str]) -> String
+where
+    C: Tag,
+    O: DataOrder,
+    for<'a> RawDataSlice<'a, C::Raw, O>: IntoIterator<Item = C::Raw>,
+{
+    let bytes = data(a[5], a[4]);
+    let (w, h) = (u(a[2]), u(a[3]));
+    let r = std::panic::catch_unwind(|| {
+        let img = ImageRaw::<C, O>::new_const(&bytes, Size::new(w, h));
+        let f = |p: Point| match img.pixel(p) {
+            Some(c) => c.tag().to_string(),
+            None => "none".to_string(),
+        };
+        format!("ok {} {} {} {}", img.size().width, img.size().height, f(Point::zero()), f(Point::new(w as i32 - 1, h as i32 - 1)))
+    });
+    match r {
+        Ok(s) => s,
+        Err(_) => {
+            let msg = LAST_PANIC_MSG.with(|p| p.borrow().clone());
+            if msg.contains("Invalid data size") {
+                "panic".to_string()
+            } else {
+                format!("panic-other {}", msg)
+            }
+        }
+    }
+}
+
 fn img_pixels<C, O>(a: &[&str]) -> String
 where
     C: Tag,
@@ -468,6 +498,7 @@ where
 pub fn run(suite: &str, a: &[&str]) -> Option<String> {
     Some(match suite {
         "img_new" => dispatch!(img_new, a),
+        "img_new_const" => dispatch!(img_new_const, a),
         "img_pixels" => dispatch!(img_pixels, a),
         "img_draw" => dispatch!(img_draw, a),
         "p_img_new" => dispatch!(p_img_new, a),
